@@ -71,7 +71,7 @@ RESERVED = ["self", "__self", "message", "__message", "level", "__level", "recor
             "from_decorator", "new_context", "log_record", "mcs", "klass"]
 KEY_NAMES = ["k%d" % i for i in range(NKEYS + 1)] + RESERVED
 KEY_INDEX = {n: i for i, n in enumerate(KEY_NAMES)}
-LOG_METHODS = ["trace", "debug", "info", "success", "warning", "error", "critical", "log"]
+LOG_METHODS = ["trace", "debug", "info", "success", "warning", "error", "critical", "log", "exception"]
 
 
 def key_name(k):
@@ -100,7 +100,7 @@ def gen_kw(rng, st, lo=0, hi=3):
 
 
 def gen_flags(rng):
-    return {"exception": rng.choice([0, 0, 1]), "depth": 0, "record": rng.chance(25), "lazy": rng.chance(25),
+    return {"exception": rng.choice([0, 0, 1, 2]), "depth": 0, "record": rng.chance(25), "lazy": rng.chance(25),
             "colors": rng.chance(25), "raw": rng.chance(25), "capture": not rng.chance(40)}
 
 
